@@ -32,10 +32,18 @@ struct Rng {
     }
 };
 
+// Per-case generator.  The state of case k must not be the state of case k+1 minus one step: Rng::next() advances the
+// state by the golden-ratio constant, so the key (seed, k, stream) is first hashed (two splitmix outputs of a keyed
+// generator) and the hash is the new state.  VERIF_RNG=1 selects the former derivation (state linear in k: the stream
+// of case k+d was the stream of case k shifted by d draws), kept only to replay cases recorded before the change.
 inline Rng caseRng(uint64_t seed, uint64_t k, uint64_t stream = 0) {
+    static const bool legacy = [] { const char *e = getenv("VERIF_RNG"); return e && e[0] == '1'; }();
     Rng r(seed * 0x2545F4914F6CDD1Dull + k * 0x9E3779B97F4A7C15ull + stream * 0xD1B54A32D192ED03ull + 0x1234567ull);
     r.next(); r.next();
-    return r;
+    if (legacy) return r;
+    Rng h(seed * 0xA24BAED4963EE407ull + (k + 1) * 0xD6E8FEB86659FD93ull + (stream + 1) * 0xCA5A826395121157ull);
+    uint64_t a = h.next(), b = r.next();
+    return Rng(a ^ (b << 1) ^ (b >> 63));
 }
 
 struct Args {
